@@ -221,6 +221,21 @@ def class_functions(fb, cls, include_lambdas=True):
 READ_KINDS = ("read", "call-const", "bind-const", "sub-const", "addr-const")
 
 
+def written_after_construction(fb, eng, cls, name):
+    """sites outside constructors and destructor where member `name` of class `cls` is used other than read-only"""
+    out = []
+    for f, top in class_functions(fb, cls):
+        if top.kind in ("ctor", "dtor"):
+            continue
+        for st in field_refs(f, cls):
+            if st["m"]["name"] != name:
+                continue
+            acc, _u = effective_access(eng, f, st)
+            if acc not in READ_KINDS:
+                out.append(f.loc(st))
+    return out
+
+
 def effective_access(eng, f, st):
     """classify, following member-of-member chains down to the real use"""
     kind, user = eng.classify_access(f, st)
@@ -268,6 +283,7 @@ def check_guarded_fields(ctx, rid, cls, only_fields=None, doc=None, only_functio
                 ctx.note("field %s::%s is not in tables/guards.json; treated as '%s' from its declaration (%s)"
                          % (cls, fl["name"], tab[fl["name"]]["kind"], t[:60]))
     n = 0
+    never_written = {}
     locksets = {}      # inferred field -> [(site, held set (mutex, mode), is write, top, inst)]
     requires = {}      # private helper id -> list of (guard path, mode, site, what)
     for f, top in class_functions(fb, cls):
@@ -372,11 +388,18 @@ def check_guarded_fields(ctx, rid, cls, only_fields=None, doc=None, only_functio
             need = ent["r"] if acc in READ_KINDS else ent["w"]
             if reads_exclusive and need == "S":
                 need = "X"      # a wrapper that promises one thread at a time for ANY access (C01: guarded, guarded_opt)
-            if need == "never":
-                ctx.ob(rid, False, site, "%s is never written outside the constructor" % name,
-                       "use kind '%s'" % acc, fn=top.label, inst=inst)
-                n += 1
-                continue
+            if ent.get("w") == "never":
+                # a member that today is set by the constructors only.  While that stays so it can be read anywhere; once
+                # some member writes it, it is a guarded member like the others (writes exclusive, reads as tabled)
+                if name not in never_written:
+                    never_written[name] = written_after_construction(fb, eng, cls, name)
+                if not never_written[name]:
+                    ctx.ob(rid, True, site, "%s is never written after construction: it can be read without %s" % (name, ent["guard"]),
+                           "", fn=top.label, inst=inst)
+                    n += 1
+                    continue
+                if need == "never":
+                    need = "X"
             ok = False
             detail = ""
             # (ii) escape into a handle / try helper locked on the same guard
